@@ -117,6 +117,11 @@ func (pe *PodEvictor) NamespaceLimitExceeded(namespace string) bool {
 func (pe *PodEvictor) Evict(ctx context.Context, pod *corev1.Pod, opts framework.EvictOptions) bool {
 	framework.FillEvictOptionsFromContext(ctx, &opts)
 
+	// serialize evictions so that checking the limits and counting the eviction are atomic,
+	// otherwise concurrent callers can pass the check together and exceed the limits
+	pe.lock.Lock()
+	defer pe.lock.Unlock()
+
 	nodeName := pod.Spec.NodeName
 	if pe.NodeLimitExceeded(nodeName) {
 		metrics.PodsEvicted.With(map[string]string{"result": "maximum number of pods per node reached", "strategy": opts.PluginName, "namespace": pod.Namespace, "node": nodeName}).Inc()
@@ -141,15 +146,11 @@ func (pe *PodEvictor) Evict(ctx context.Context, pod *corev1.Pod, opts framework
 			return false
 		}
 
-		func() {
-			pe.lock.Lock()
-			defer pe.lock.Unlock()
-			if pod.Spec.NodeName != "" {
-				pe.nodepodCount[pod.Spec.NodeName]++
-			}
-			pe.namespacePodCount[pod.Namespace]++
-			pe.totalCount++
-		}()
+		if pod.Spec.NodeName != "" {
+			pe.nodepodCount[pod.Spec.NodeName]++
+		}
+		pe.namespacePodCount[pod.Namespace]++
+		pe.totalCount++
 
 		metrics.PodsEvicted.With(map[string]string{"result": "success", "strategy": opts.PluginName, "namespace": pod.Namespace, "node": nodeName}).Inc()
 
